@@ -299,7 +299,7 @@ def run(ctx):
 
     # ---- (a) permutations, (c) dummy creations / raised counters: whole catalogue per process ----
     histories = [{"tag": "ref", "kind": "reference (walk order, no pre-history)", "modules": modules, "hashseed": 0}]
-    n_perm, n_dummy, n_raised = ctx.pick((4, 3, 2), (12, 6, 5))
+    n_perm, n_dummy, n_raised = ctx.pick((3, 3, 2), (12, 6, 5))
     for i in range(n_perm):
         order = modules[:]
         rng.shuffle(order)
@@ -381,7 +381,24 @@ def run(ctx):
         return d.get("FUN", 0) >= 2 or d.get("QTY", 0) >= 2 or any(p not in ("SYM", "FUN", "QTY") for p in d)
     full = set(modules) if not ctx.quick else set(rng.sample(modules, max(1, len(modules) // 10))) | (set(CORPUS) & set(modules))
     light_only = set() if not ctx.quick else {n for n, o in refm.items() if o.get("import") == "ok" and multi(o)} - full
-    chosen = sorted(full | light_only)
+    # quick, additionally: modules whose source calls a solver / simplifier (the operations whose output follows the name order)
+    # gets the one-exponent boundary sweep of ALL its prefixes incl. SYM, all offsets, with its calculate_* functions
+    solver_only = set()
+    if ctx.quick:
+        for n in modules:
+            if n in full or refm.get(n, {}).get("import") != "ok":
+                continue
+            try:
+                src = (REPO / (n.replace(".", "/") + ".py")).read_text()
+            except OSError:
+                continue
+            if "solve(" in src or "simplify(" in src:
+                solver_only.add(n)
+        # measured: sweeping all ~420 of them costs ~110 s, not affordable in the quick budget -> a seeded third per run
+        # (the thorough tier sweeps every module with both exponents)
+        solver_only = set(rng.sample(sorted(solver_only), len(solver_only) // 3))
+        light_only -= solver_only
+    chosen = sorted(full | light_only | solver_only)
     slow = {n for n, o in refm.items() if o.get("import_s", 0) > 2.5}
     base_tasks = [[m, {}] for m in chosen]
     shards = [base_tasks[i::NPROC] for i in range(NPROC)]
@@ -429,11 +446,14 @@ def run(ctx):
             rest = [t for t in offs if t not in keep]
             keep |= set(rng.sample(rest, max(0, min(len(rest), lim - len(keep)))))
             offs = sorted(keep)
-        for bump in (0, 1) if (name not in slow and not light) else (0,):
+        sweep_only = name in solver_only
+        if sweep_only:
+            offs = list(range(0, min(kmax, 16) + 1))
+        for bump in (0, 1) if (name not in slow and not light and not sweep_only) else (0,):
             for st in boundary_counters(base_ids, delta, offs, bump):
                 tasks.append([name, st])
                 n_states += 1
-        if light:
+        if light or sweep_only:
             continue
         # leading-digit classes: the module's names against names minted EARLIER (registry symbols, constants): one state per
         # position of the new block among the earlier names the module mentions, plus seeded random leading digits
@@ -464,7 +484,7 @@ def run(ctx):
                 for d in compare(alone[name], o):
                     diffs.append(({"tag": f"states{k}", "kind": "module alone, counters pre-set", "counters": o.get("counters"),
                         "hashseed": seeds[k]}, name, *d, o))
-    ctx.coverage.update(boundary_modules=len(chosen), boundary_states_run=n_states, leading_digit_states_run=n_lead_states, gap_states_run=n_gap_states, modules_full=len(full), modules_prefix_sweep_only=len(light_only), boundary_observations_compared=compared_b,
+    ctx.coverage.update(boundary_modules=len(chosen), boundary_states_run=n_states, leading_digit_states_run=n_lead_states, gap_states_run=n_gap_states, modules_full=len(full), modules_prefix_sweep_only=len(light_only), modules_solver_sweep_only=len(solver_only), boundary_observations_compared=compared_b,
         boundary_wall_s=round(time.time() - t0, 1), slow_modules_with_reduced_states=sorted(slow))
     representatives_tie(ctx, [o.get("ids", {}) for o in alone.values()])
 
